@@ -518,7 +518,24 @@ func main() {
 			cases = append(cases, Case{Types: []string{t, t, t}, Values: []string{v, v, v}, Split: ord})
 		}
 	}
-	r.Rule = "stage signatures with 1 parameter over 75 types (9 base types x array depth 0-2 x typed-map nesting 0-2) x every value of a per-type list (nested structs, typed maps, nulls, +-2^53+-1, max/min int64, 1e21, 5e-324, -0.0, strings with escapes/NUL/non-ASCII, empty collections) and split over an array, a typed map and an empty array of the values; " +
+	// every spelling of a character that JSON text may use inside a string:
+	// \u00XX for each of the 256 low code units, boundary code units, a
+	// surrogate pair and the named escapes - as a value and as a typed-map key
+	{
+		var esc []string
+		for u := 0; u < 256; u++ {
+			esc = append(esc, fmt.Sprintf(`\u%04x`, u))
+		}
+		for _, u := range []int{0x100, 0x17f, 0x7ff, 0x800, 0x2028, 0x2029, 0xd7ff, 0xe000, 0xfeff, 0xfffd, 0xffff} {
+			esc = append(esc, fmt.Sprintf(`\u%04X`, u))
+		}
+		esc = append(esc, `\ud83d\ude00`, `\b`, `\f`, `\n`, `\r`, `\t`, `\/`, `\\`, `\"`)
+		for _, e := range esc {
+			cases = append(cases, Case{Types: []string{"string"}, Values: []string{`"a` + e + `b"`}})
+			cases = append(cases, Case{Types: []string{"map<int>"}, Values: []string{`{"k` + e + `":1}`}})
+		}
+	}
+	r.Rule = "every JSON escape spelling (\\u0000-\\u00ff, boundary code units, a surrogate pair, named escapes) as a string value and as a typed-map key; stage signatures with 1 parameter over 75 types (9 base types x array depth 0-2 x typed-map nesting 0-2) x every value of a per-type list (nested structs, typed maps, nulls, +-2^53+-1, max/min int64, 1e21, 5e-324, -0.0, strings with escapes/NUL/non-ASCII, empty collections) and split over an array, a typed map and an empty array of the values; " +
 		"signatures with 2 parameters (all ordered type pairs, depth<=1 in quick) x all 4 split subsets (both orders of naming two split arguments, all 6 orders of three); each through BuildCallSource -> compile -> InvocationDataFromSource -> BuildCallSource: call name, include, split set, argument values (numbers as exact decimals) and text stability; " +
 		"plus the _invocation file of every stage fork of 9 real pipestance runs (compiles, arguments equal the job's). distinct = distinct (signature, values, split set); non-trivial = some argument is not null"
 	r.Set("cases", len(cases))
